@@ -50,6 +50,8 @@ type C11Mon struct {
 	penalty   map[string]*big.Int
 	unstakes  map[string][]unstakeRec
 	with      map[string]map[string]bool // delegator -> validators it has or had stake with
+	cutVal    map[string]string          // delegator -> the validator whose stake the cut was taken from
+	penalised map[string]int64           // delegator -> block of the last unexplained cut of its locked amount (a verdict)
 	bounded0  map[string]*big.Int        // delegator -> withdrawable amount the history started with
 	lag       map[string]int             // validator -> consecutive blocks in which its own record disagreed with the delegation records
 	init      bool
@@ -134,12 +136,25 @@ func (m *C11Mon) OnBlock(blk *hist.Block) []Finding {
 				out = append(out, Finding{"C11", "C11/frozen/STAKE", fmt.Sprintf("block %d: STAKE on validator %s succeeded although it is frozen before and after the block", blk.H, val)})
 			}
 		case "UNSTAKE":
+			if at, ok := m.penalised[deleg]; ok && at < blk.H && m.cutVal[deleg] == val {
+				out = append(out, Finding{"C11", "C11/frozen/UNSTAKE-after-penalty", fmt.Sprintf("block %d: %s unstaked %s although its stake was cut by a verdict in block %d and no release request has succeeded since", blk.H, deleg, amt, at)})
+			}
 			addTo(unstakedNow, deleg, amt)
 			m.unstakes[deleg] = append(m.unstakes[deleg], unstakeRec{amt, blk.H, blk.H + matLoose, blk.H + max64(po.MaturityTime, co.MaturityTime)})
 			if Frozen(blk.Prev, val) && Frozen(blk.Cur, val) {
 				out = append(out, Finding{"C11", "C11/frozen/UNSTAKE", fmt.Sprintf("block %d: UNSTAKE on validator %s succeeded although it is frozen before and after the block", blk.H, val)})
 			}
+		case "RELEASE":
+			// (the validator's stake address is released with it)
+			for d, vs := range m.with {
+				if vs[val] && (m.cutVal[d] == val || m.cutVal[d] == "") {
+					delete(m.penalised, d)
+				}
+			}
 		case "WITHDRAW":
+			if at, ok := m.penalised[deleg]; ok && at < blk.H {
+				out = append(out, Finding{"C11", "C11/frozen/WITHDRAW-after-penalty", fmt.Sprintf("block %d: %s withdrew %s although its stake was cut by a verdict in block %d and no release request has succeeded since", blk.H, deleg, amt, at)})
+			}
 			addTo(m.withdrawn, deleg, amt)
 			if Frozen(blk.Prev, val) && Frozen(blk.Cur, val) {
 				out = append(out, Finding{"C11", "C11/frozen/WITHDRAW", fmt.Sprintf("block %d: WITHDRAW on validator %s succeeded although it is frozen before and after the block", blk.H, val)})
@@ -180,6 +195,21 @@ func (m *C11Mon) OnBlock(blk *hist.Block) []Finding {
 		pen.Sub(pen, delta)
 		if pen.Sign() > 0 {
 			addTo(m.penalty, d, pen)
+			// a cut of the locked amount that no transaction explains is a verdict's penalty: the validator behind
+			// it is frozen from this block end on, until a release request succeeds
+			if m.penalised == nil {
+				m.penalised = map[string]int64{}
+			}
+			m.penalised[d] = blk.H
+			if m.cutVal == nil {
+				m.cutVal = map[string]string{}
+			}
+			m.cutVal[d] = ""
+			for _, v := range m.validatorsOf(blk, d) {
+				if amountAt(blk.Cur, "st__e_"+v+"_"+d).Cmp(amountAt(blk.Prev, "st__e_"+v+"_"+d)) < 0 {
+					m.cutVal[d] = v // (with several candidates the last one; unstakes of the same block are rare)
+				}
+			}
 		}
 		bound := new(big.Int).Sub(get(m.staked, d), get(m.penalty, d))
 		if get(m.withdrawn, d).Cmp(bound) > 0 {
